@@ -705,11 +705,10 @@ def oracle_tree(ctx, S, br, leaves, rep, seen):
 
 
 PARTIAL = [
-    {"theorem": "mprocess_state_partial", "missing": "outcomes with weight*p <= eps_zero (truncation/renormalisation branch): there the code divides post states by the renormalised probability (D13, witness truncated_post_state_fails)"},
-    {"theorem": "ensemble_step_partial", "missing": "same generic-regime restriction; zero-distribution branch not covered"},
-    {"theorem": "compose_assoc (full)", "missing": "false on the current tree for chains that compose MProcess with MProcess (D6, witnesses compose_assoc_fails / mpMp_order_fails); proved instead: instrument_bracketing for the corrected composition, coded_branches_eq_fixed, exact triples assoc_mprocess_gate_state / assoc_povm_gate_state / assoc_povm_mprocess_gate, forStates_gate_mul (TP gate), gate_chain_bracketing"},
-    {"theorem": "born_dist non-negativity", "missing": "PSD ⇒ ⟪Π,ρ⟫ ≥ 0 needs the basis bridge (C02); sum-to-one parts proved (born_sum_one, truncNorm_sum_one)"},
-    {"theorem": "generate_mprocess modes 0/1 round trip", "missing": "complex sqrtm/eigh pipeline not modelled; mode 2 proved (mode2_to_povm, mode2_to_povm_list), mode 1 spectral step modelled for real symmetric input with witness mode1_to_povm_fails (D4)"},
+    {"theorem": "mprocess_state_partial", "missing": "formulas for probabilities / post states are stated for the regime where no outcome has weight*p <= eps_zero; for all branches only normalisation of the post states is proved (post_states_normalised)"},
+    {"theorem": "ensemble_step_partial / compose_assoc_mprocess_partial", "missing": "same no-truncation restriction; zero-distribution branch not covered; equality is at the level of the unnormalised states p·rho and the reported shape, not of the normalised StateEnsemble object"},
+    {"theorem": "born_dist non-negativity", "missing": "PSD => <Pi,rho> >= 0 needs the basis bridge (C02); sum-to-one parts proved (born_sum_one, truncNorm_sum_one)"},
+    {"theorem": "mode1_to_povm_partial", "missing": "real eigenvector matrices, pairwise different eigenvalues, fold form of the spectral sum; repeated eigenvalues (dict grouping) and the complex case are covered by the correspondence / oracle only; mode 0 (sqrtm) not modelled (D14 open)"},
     {"theorem": "compose_physical CP part", "missing": "complete positivity of compositions (Kraus products) not proved; TP/identity-sum parts proved (tp_comp_tp, povm_gate_identity_sum, povm_mprocess_identity_sum, mprocess_prob_sum_one)"},
 ]
 
@@ -841,6 +840,10 @@ def oracle_generate(ctx, volume=1):
                 singular = any(np.linalg.eigvalsh(e)[0] < 1e-9 for e in mats)
                 # mode 0 goes through scipy.linalg.sqrtm, whose accuracy collapses on singular matrices: separate input class
                 sfx = "/singular" if (mode == 0 and singular) else ""
+                # mode 1 groups eigenvalues by exact float equality: elements with a (numerically) repeated eigenvalue
+                # are a separate input class
+                if mode == 1 and any(np.min(np.diff(np.linalg.eigvalsh(e))) < 1e-9 for e in mats):
+                    sfx = "/degenerate"
                 ctx.case(("generate", kind, t, mode, name), sample={"op": "generate_mprocess", "mode": mode, "family": name})
                 ctx.count(f"generate {name} mode={mode}")
                 try:
